@@ -15,7 +15,7 @@ class SgnFunction(Function):
     MIN_ARGS = MAX_ARGS = 1
 
     async def _eval(self, context: EvalContext) -> EvalResult:
-        e = int((await self.eval_args(context))[0])
+        e = (await self.eval_args(context))[0]
         if e > 0:
             return 1
         elif e < 0:
